@@ -2,8 +2,8 @@
 (* Enumeration of inputs of the upload-config generator (C17, model -> code) *)
 (* Every sequence of at most MaxRecs abstract chart records                  *)
 (*    <<program, counter expression, depth, minimum-version rank>>           *)
-(* over two programs (1: a toolchain program cmd/..., whose versions are Go  *)
-(* versions; 2: a module program with semantic versions), with the output    *)
+(* over NProgs programs (toolchain programs cmd/..., whose versions are Go   *)
+(* versions, and module programs with semantic versions), with the output    *)
 (* the specification demands:                                                *)
 (*    present[p]   the program is listed                                     *)
 (*    minv[p]      smallest minimum among its records (0: all versions)      *)
@@ -15,10 +15,12 @@ CONSTANTS MaxRecs,
           Ctrs,        \* counter expression tokens, 1..n
           Depths,      \* depth values, containing 0
           Mins,        \* minimum-version ranks a record may carry (0: none)
-          Known1, Known2   \* known version ranks of program 1 / 2
+          NProgs,      \* programs 1..NProgs
+          ToolProgs,   \* those that are toolchain programs (cmd/...): versions are Go versions
+          Known1, Known2   \* known version ranks: Go versions / versions of the module programs
 
-Progs == {1, 2}
-Known(p) == IF p = 1 THEN Known1 ELSE Known2
+Progs == 1..NProgs
+Known(p) == IF p \in ToolProgs THEN Known1 ELSE Known2
 RecSpace == [prog : Progs, ctr : Ctrs, depth : Depths, min : Mins]
 
 VARIABLES recs, present, minv, req, nctr, nstk
@@ -51,6 +53,12 @@ EachListedOnce ==
 PrefixMonotone ==
     \A n \in 1..Len(recs) : \A p \in ProgsOf(SubSeq(recs, 1, n)) :
         Required(SubSeq(recs, 1, n), p, Known(p)) \subseteq req[p]
+(* programs do not influence each other: the output for p is that of p's records alone *)
+Isolated ==
+    \A p \in ProgsOf(recs) :
+        LET mine == SelectSeq(recs, LAMBDA r : r.prog = p) IN
+        /\ MinOfMins(mine, p) = minv[p]
+        /\ \A c \in Ctrs : NCounter(mine, p, c) = nctr[p][c]
 (* a record's own minimum version is always listed when it is known *)
 OwnMinListed == \A i \in 1..Len(recs) : (recs[i].min \in Known(recs[i].prog)) => recs[i].min \in req[recs[i].prog]
 =============================================================================
